@@ -226,7 +226,7 @@ def render_cmake(v):
 
 def ob_cmake(n, at_only):
     def h():
-        line = sym_str(n, 'l', alphabet='@${}aB .')
+        line = sym_str(n, 'l', alphabet='@${}aB .\xe9')          # e-acute: a letter for Unicode-aware classes, not a cmake name character
         key = sym_str(1, 'k', alphabet='aB')
         vk = choose(4, 'vkind')
         val = [None, None, None, ''][vk]
@@ -451,7 +451,7 @@ def obligations(tier):
                           labels=('undef', 'string', 'bool', 'int', 'rejected'), max_paths=3000000))
     for at_only in (False, True):
         for n in range(1, 8 if q else 9):
-            out.append(Obligation('cmake%s-line[%d]' % ('@' if at_only else '', n), ob_cmake(n, at_only), dict(length=n, alphabet='@${}aB .', at_only=at_only),
+            out.append(Obligation('cmake%s-line[%d]' % ('@' if at_only else '', n), ob_cmake(n, at_only), dict(length=n, alphabet='@${}aB . e-acute', at_only=at_only),
                                   labels=('done',), max_paths=5000000))
     for at_only in (False, True):
         out.append(Obligation('cmakedefine%s' % ('@' if at_only else ''), ob_cmakedefine(at_only), dict(indentation='none|space|tab|2 spaces', after_hash='none|space|tab', variant='cmakedefine|cmakedefine01',
